@@ -10,7 +10,7 @@
 (* contract invariants (NoOverlap, SizesOk) keep holding on every state.           *)
 EXTENDS Allocator, TLC
 
-KnownIds == {"C07-KF1", "C07-KF2", "C07-KF3", "C07-KF4", "C07-KF5", "C07-KF6", "C07-KF7", "C07-KF8",
+KnownIds == {"C07-KF1", "C07-KF2", "C07-KF3", "C07-KF4", "C07-KF5", "C07-KF6", "C07-KF8",
              "C07-KF9", "C07-KF10", "C07-KF11", "C07-KF12", "C07-KF13", "C07-KF14"}
 
 Same == UNCHANGED <<live, pend>>
@@ -47,10 +47,7 @@ G5(e, subj) == Witness(subj, "tlpool", "C07-KF5") /\ e.op = "panic" /\ e.in = "a
 (* C07-KF6: SecureChunk::new always uses an 8-byte layout behind a 40-byte header: the         *)
 (* configured alignment (16, 32, 64) is not honoured.                                          *)
 G6(e, subj) == subj.fam = "secure" /\ IsAllocOk(e) /\ e.align > 8 /\ e.mis # 0
-(* C07-KF7: SecureMemoryPool with local_cache_size = 0: deallocate_internal drops the chunk    *)
-(* that try_push rejected and unwraps a pop of the empty cache: free panics.                   *)
-G7(e, subj) == subj.fam = "secure" /\ subj.variant = "small_c0" /\ e.op = "panic" /\ e.in = "free"
-               /\ e.msg = "called `Option::unwrap()` on a `None` value"
+(* (C07-KF7, a panic of every release with local_cache_size = 0, was repaired in /repo by c4d48a0.) *)
 (* C07-KF8: SecureMemoryPool::clear wipes active_allocations while allocations are             *)
 (* outstanding: their release is then counted as a double free and the chunk is leaked.        *)
 G8(e, subj) == Witness(subj, "secure", "C07-KF8") /\ e.op = "free" /\ e.after_clear /\ ~e.ok /\ e.b \in DOMAIN live
@@ -80,7 +77,6 @@ DevApplies(id, e, subj) ==
     \/ id = "C07-KF4" /\ G4(e, subj)
     \/ id = "C07-KF5" /\ G5(e, subj)
     \/ id = "C07-KF6" /\ G6(e, subj)
-    \/ id = "C07-KF7" /\ G7(e, subj)
     \/ id = "C07-KF8" /\ G8(e, subj)
     \/ id = "C07-KF9" /\ G9(e, subj)
     \/ id = "C07-KF10" /\ G10(e, subj)
@@ -96,7 +92,6 @@ KnownDeviation(id, e, subj) ==
     \/ id = "C07-KF4" /\ G4(e, subj) /\ Same
     \/ id = "C07-KF5" /\ G5(e, subj) /\ Same
     \/ id = "C07-KF6" /\ G6(e, subj) /\ AllocOkMisaligned(e)
-    \/ id = "C07-KF7" /\ G7(e, subj) /\ Same
     \/ id = "C07-KF8" /\ G8(e, subj) /\ live' = Without({e.b}) /\ UNCHANGED pend
     \/ id = "C07-KF9" /\ G9(e, subj) /\ AllocOkMisaligned(e)
     \/ id = "C07-KF10" /\ G10(e, subj) /\ Same
